@@ -321,8 +321,24 @@ class Session:
                     return p[1]
                 return None
 
+        # `wrapfiles` ([[relative path, text]]): the [provide] tables are not the stub above but the real wrap.Resolver
+        # loaded from these wrap files written to a scratch subprojects directory (harness/c10_wrapfile.py)
+        real_resolver = None
+        if fw.get('wrapfiles') is not None:
+            from . import common as _common
+            from . import c10_wrapfile as _WF
+            _root = _common.scratch_dir('mverif-c10ws-')
+            try:
+                _WF.build_tree(_root, {'files': fw['wrapfiles']})
+                real_resolver = _WF.make_resolver(_root)
+            except Exception as ex:
+                self.setup_errors.append('the wrap files of the world were not loaded: ' + type(ex).__name__)
+            finally:
+                _common.rmtree(_root)
+        self.real_resolver = real_resolver
+
         class Env:
-            wrap_resolver = Resolver()
+            wrap_resolver = real_resolver if real_resolver is not None else Resolver()
 
         class Build:
             pass
